@@ -21,9 +21,12 @@ def parseCmd (d : String) : Option Cmd :=
   | ["drop", t] => some (.drop (tableOf t))
   | ["ins", t, vs] => some (.insert (tableOf t) ((vs.splitOn "+").filterMap (fun x => if x.isEmpty then none else some (intOf x))))
   | ["del", t, op, c] =>
-      let o := match op with | "lt" => DelOp.lt | "eq" => DelOp.eq | "ge" => DelOp.ge | _ => DelOp.all
+      let o := match op with
+        | "lt" => DelOp.lt | "eq" => DelOp.eq | "ge" => DelOp.ge | "bt" => DelOp.bt | _ => DelOp.all
       some (.delete (tableOf t) o (intOf c))
-  | ["sel", t] => some (.select (tableOf t))
+  | ["sel", t] => some (.select (tableOf t) none)
+  | ["selo", t] => some (.select (tableOf t) none)
+  | ["seleq", t, c] => some (.select (tableOf t) (some (intOf c)))
   | ["cnt", t] => some (.count (tableOf t))
   | ["read", t, b] => some (.read (tableOf t) (natOf b))
   | ["compact"] => some .compact
@@ -94,14 +97,6 @@ def insKey (x : Key) : List Key → List Key
 def sortKeysFull : List Key → List Key
   | [] => []
   | x :: r => insKey x (sortKeysFull r)
-
-def insInt (x : Int) : List Int → List Int
-  | [] => [x]
-  | y :: r => if x ≤ y then x :: y :: r else y :: insInt x r
-
-def sortInt : List Int → List Int
-  | [] => []
-  | x :: r => insInt x (sortInt r)
 
 def insStr (x : String) : List String → List String
   | [] => [x]
